@@ -7,6 +7,7 @@ import (
 	"testing"
 
 	"github.com/cybergarage/go-redis/redis"
+	"github.com/cybergarage/go-redis/redis/proto"
 	"verif/sim/resp"
 	"verif/sim/sim"
 	"verif/sim/wl"
@@ -20,14 +21,17 @@ type handlerResult struct {
 	text string
 	val  resp.Value
 	f    float64
+	typ  int
 }
 
 func drawHandlerResult(t *sim.Tape) handlerResult {
-	h := handlerResult{kind: t.Draw(10, "hkind")}
+	h := handlerResult{kind: t.Draw(11, "hkind")}
 	h.text = hostileText[t.Draw(len(hostileText), "htext")]
 	switch h.kind {
 	case 3:
 		h.val = genValue(t, 1, false)
+	case 10:
+		h.typ = t.Draw(4, "htype")
 	case 6:
 		h.f = []float64{0, 1.5, math.Inf(1), math.Inf(-1), math.NaN(), -0.0, 1e300}[t.Draw(7, "hfloat")]
 	}
@@ -54,6 +58,9 @@ func (h handlerResult) apply(c *wl.Call) (*redis.Message, error, bool) {
 		return redis.NewErrorMessage(errors.New(h.text)), nil, true
 	case 9: // bulk with hostile bytes
 		return redis.NewBulkMessage(h.text), nil, true
+	case 10: // message of any line/bulk type whose payload the handler set itself (exported proto API)
+		mt := []proto.MessageType{proto.StringMessage, proto.ErrorMessage, proto.IntegerMessage, proto.BulkMessage}[h.typ]
+		return proto.NewMessageWithType(mt).SetBytes([]byte(h.text)), nil, true
 	}
 	return nil, nil, false
 }
@@ -146,6 +153,16 @@ func runC04(t *testing.T, tape *sim.Tape, tier string) *Outcome {
 			plan[i] = drawHandlerResult(tape)
 		}
 	}
+	// an integer message whose text a handler made non-numeric cannot be turned into a number by the framework:
+	// such runs judge integer replies on framing (one complete line without CR/LF) only
+	for _, h := range plan {
+		if h.kind == 10 && h.typ == 2 {
+			resp.LaxInteger = true
+			o.stat("runs_with_handler_set_integer_text", 1)
+			break
+		}
+	}
+	defer func() { resp.LaxInteger = false }()
 	c.D.RawResult = func(call *wl.Call) (*redis.Message, error, bool) {
 		if call.Seq < len(plan) {
 			m, err, ok := plan[call.Seq].apply(call)
@@ -192,7 +209,7 @@ func runC04(t *testing.T, tape *sim.Tape, tier string) *Outcome {
 			return
 		}
 		for i, v := range vals {
-			if v.K == resp.Status || v.K == resp.Error {
+			if v.K == resp.Status || v.K == resp.Error || v.K == resp.Integer {
 				for _, b := range v.S {
 					if b == '\r' || b == '\n' {
 						o.violate("c04:crlf-in-line", "reply %d %s carries CR/LF", i, v)
@@ -224,9 +241,9 @@ func init() {
 	register(&Check{
 		ID: "C04", Bubble: true, Run: runC04,
 		Runs:   map[string]int{"quick": 40000, "thorough": 1500000},
-		Rule:   "a case is one (client value stream, handler-result plan, delivery schedule) triple: client values of every RESP type incl. odd command arrays and hostile bytes; per handler call an injected result (hostile status/error text, arbitrary value tree, nil, error, message+error, floats incl. Inf/NaN); distinct = distinct (shape, chunking, stream hash) signatures; non-trivial = handler faults enabled or chunked delivery",
+		Rule:   "a case is one (client value stream, handler-result plan, delivery schedule) triple: client values of every RESP type incl. odd command arrays and hostile bytes; per handler call an injected result (hostile status/error text, arbitrary value tree, nil, error, message+error, floats incl. Inf/NaN, status/error/integer/bulk messages whose payload the handler set through proto.Message.SetBytes); distinct = distinct (shape, chunking, stream hash) signatures; non-trivial = handler faults enabled or chunked delivery",
 		Real:   []string{"redis.Server connection loop, dispatch, executors, error construction, redis/proto serializer"},
 		Stub:   []string{"transport: simulated net.Conn", "handler: double returning injected results built with the public constructors"},
-		Assume: []string{"integer replies are built with NewIntegerMessage; arrays with NewArrayMessage/Append of non-nil messages"},
+		Assume: []string{"an integer message whose text a handler set to non-numeric bytes is judged on framing only (one complete line without CR/LF): the framework cannot make it a number", "arrays are built with NewArrayMessage/Append of non-nil messages"},
 	})
 }
